@@ -97,6 +97,7 @@ struct CamScript
     int64_t zero_at = -1;    // this ordinal returns a zero-size frame
     int fail_start = 0;
     int fail_set = 0;
+    int fail_stop = 0; // the next stop() stops the camera but reports an error
 };
 
 struct CamState
@@ -155,7 +156,7 @@ struct StreamCfg
     bool faulty() const
     {
         return cs.fail_frame >= 0 || ss.fail_append >= 0 || cs.fail_start ||
-               cs.fail_set || ss.fail_start;
+               cs.fail_set || cs.fail_stop || ss.fail_start;
     }
 };
 
@@ -451,6 +452,11 @@ install_hooks()
     H.cam_stop = [](int inst) -> int {
         CamState& c = W->cam[camdev_index(mock::instance(inst).dev)];
         c.running = false;
+        if (c.script.fail_stop) {
+            c.script.fail_stop = 0;
+            probe("fault.camera_stop_fails");
+            return Device_Err;
+        }
         return Device_Ok;
     };
     H.cam_trigger = [](int inst) -> int {
@@ -1159,14 +1165,14 @@ struct RtHarness : Harness
                  "cfg s=%d cam=%s sto=%s n=%lld w=%d h=%d t=%d avg=%d delay=%lld "
                  "exp=%lld trig=%d gapat=%lld zeroat=%lld failframe=%lld "
                  "failappend=%lld slow=%lld failcamstart=%d failstostart=%d "
-                 "failset=%d",
+                 "failset=%d failcamstop=%d",
                  s, c.cam.c_str(), c.sto.c_str(),
                  c.n == INF_FRAMES ? -1ll : (long long)c.n, c.w, c.h, c.type,
                  c.avg, (long long)c.delay_us, (long long)c.cs.exposure_us,
                  c.trig, (long long)c.cs.gap_at, (long long)c.cs.zero_at,
                  (long long)c.cs.fail_frame, (long long)c.ss.fail_append,
                  (long long)c.ss.slow_us, c.cs.fail_start, c.ss.fail_start,
-                 c.cs.fail_set);
+                 c.cs.fail_set, c.cs.fail_stop);
         return b;
     }
 
@@ -1297,6 +1303,9 @@ struct RtHarness : Harness
                 }
                 if (prog_prof && a > 0 && g.chance(0.1))
                     sc[s].cs.fail_set = 1;
+                // a camera whose stop() stops it but reports an error
+                if ((prog_prof || abort_prof) && !last && g.chance(0.05))
+                    sc[s].cs.fail_stop = 1;
                 maxframe = std::max(maxframe, frame_bytes(sc[s], false));
                 maxout = std::max(maxout, frame_bytes(sc[s], sc[s].avg > 1));
                 ops.push_back(cfg_line(s, sc[s]));
@@ -1368,6 +1377,19 @@ struct RtHarness : Harness
                     snprintf(b, sizeof(b), "sleep us=%lld",
                              (long long)sl[g.below(5)]);
                     ops.push_back(b);
+                }
+            }
+            // The client knows from the frames it has counted that the
+            // finite acquisition is over and goes on to the next one without
+            // stop and without asking for the state.
+            {
+                bool finite = !last && !fullring && !faults;
+                for (int s = 0; s < nstreams; ++s)
+                    finite &= sc[s].n != INF_FRAMES && !sc[s].trig &&
+                              !sc[s].faulty();
+                if (finite && (avg_prof || prog_prof) && g.chance(0.15)) {
+                    ops.push_back("await_quiet max=3000000");
+                    continue;
                 }
             }
             // how it ends
@@ -1478,6 +1500,7 @@ struct RtHarness : Harness
         c.cs.fail_frame = op.i("failframe", -1);
         c.cs.fail_start = (int)op.i("failcamstart", 0);
         c.cs.fail_set = (int)op.i("failset", 0);
+        c.cs.fail_stop = (int)op.i("failcamstop", 0);
         c.ss.fail_append = op.i("failappend", -1);
         c.ss.slow_us = op.i("slow", 0);
         c.ss.fail_start = (int)op.i("failstostart", 0);
@@ -1739,6 +1762,33 @@ struct RtHarness : Harness
                        now_ns() < deadline)
                     sleep_ns(100000);
                 probe("reach.await_armed");
+            } else if (op.name == "await_quiet") {
+                // the acquisition is over when its worker threads are gone;
+                // the client learns that by counting frames, not from the
+                // runtime (no stop, no acquire_get_state)
+                uint64_t deadline = now_ns() + (uint64_t)op.i("max", 1000000) * 1000;
+                while (live_created_threads() > 0 && now_ns() < deadline)
+                    sleep_ns(100000);
+                if (w->running_expected && current_acq() &&
+                    !current_acq()->judged && live_created_threads() == 0) {
+                    for (int s2 = 0; s2 < 2; ++s2)
+                        if (w->mon_tid[s2] >= 0 && w->mon_finite[s2]) {
+                            join(w->mon_tid[s2]);
+                            w->mon_tid[s2] = -1;
+                        }
+                    AcqRec* pa = current_acq();
+                    pa->ended = "stop"; // judged like a stopped one
+                    pa->end_invoked_seq = pa->end_returned_seq = ++w->seq;
+                    pa->judged = true;
+                    for (int s2 = 0; s2 < 2; ++s2)
+                        judge_stream(*pa, s2);
+                    w->running_expected = false;
+                    w->autotrig_stop = true;
+                    for (int t : w->helper_tids)
+                        join(t);
+                    w->helper_tids.clear();
+                    probe("reach.quiet_restart");
+                }
             } else if (op.name == "start") {
                 if (w->running_expected && current_acq() &&
                     !current_acq()->judged &&
